@@ -5,7 +5,7 @@ S="$(mktemp -d /tmp/mutest.XXXXXX)"
 trap 'rm -rf "$S"' EXIT
 cp -r /repo/audiolazy "$S/" && rm -rf "$S/audiolazy/__pycache__"
 ( cd "$S" && patch -s -p1 --no-backup-if-mismatch < "$DIFF" ) || { echo "PATCH-FAILED $DIFF"; exit 3; }
-cd "$(dirname "$0")/.." && VERIF_REPO="$S" ./check "$ID" "$TIER" ${MUTEST_ARGS} > "$S/out.txt" 2>&1
+cd "$(dirname "$0")/.." && VERIF_REPO="$S" VERIF_EVIDENCE_DIR="$S/evidence" VERIF_REPLAY_DIR="$S/replays" ./check "$ID" "$TIER" ${MUTEST_ARGS} > "$S/out.txt" 2>&1
 rc=$?
 grep -E "^VIOLATION|detail=|HARNESS" "$S/out.txt" | head -${MUTEST_LINES:-3}
 echo "mutest $ID $(basename "$DIFF") -> exit $rc"
